@@ -21,7 +21,7 @@ def run(ctx):
         suffixes = [[], [1], [1, 1], [1, 2], [2]]
         keyseq = sorted([c + s for c in c3 for s in suffixes])
         ntr, nst = (60, 250) if ctx.thorough else (12, 120)
-        tp = kv.trace_run(ctx, binary, keyseq, c3, True, ["x", "y"], "contract", ntr, nst, "c44")
+        tp = kv.trace_run(ctx, binary, keyseq, c3, True, kv.TRACE_VALS, "contract", ntr, nst, "c44")
         if tp:
             v = kv.trace_check(ctx, tp, "C44")
             nev = v["total"]
